@@ -2,7 +2,7 @@
     Proved: the surface pre-test, the kd shortcut, and the sufficiency of the slab/fault depth cut-off for chains of
     straight pieces.  Arcs, the surface bounding box and spherical worlds: decided by the hook on/off oracle. *)
 From Coq Require Import Reals Lra List.
-From WB Require Import Num Base RNum Kernels KdSpec KdProofs SurfaceProofs SlabSpec SlabSpecProofs.
+From WB Require Import Num Base RNum Kernels KdSpec KdProofs SurfaceProofs Bezier SlabSpec SlabSpecProofs HullProofs.
 Import ListNotations.
 Local Open Scope R_scope.
 
@@ -38,8 +38,29 @@ Section C07.
     (forall L' th', In (L', th') prefix -> 0 <= L') -> 0 <= a <= L -> 0 <= d ->
     chain_end_depth prefix sy + a * sin th + d * cos th <= sy + (chain_length prefix + L) + d.
   Proof. intros prefix sy L th a d H1 H2 H3. exact (cutoff_sufficient_straight prefix sy L th a d H1 H2 H3). Qed.
+
+  (** surface bounding box of slabs and faults (Cartesian): every point of the trench curve lies in the box of its
+      segment's two coordinates and two control points ... *)
+  Theorem C07_trench_in_control_box : forall (b : @bezier R) i t lox hix loy hiy, 0 <= t <= 1 ->
+    let P0 := @pnth R N (bz_points b) i in
+    let P1 := @pnth R N (bz_points b) (i + 1) in
+    let C := nth i (bz_ctrl b) (@p0 R N, @p0 R N) in
+    lox <= fst P0 <= hix -> lox <= fst (fst C) <= hix -> lox <= fst (snd C) <= hix -> lox <= fst P1 <= hix ->
+    loy <= snd P0 <= hiy -> loy <= snd (fst C) <= hiy -> loy <= snd (snd C) <= hiy -> loy <= snd P1 <= hiy ->
+    lox <= fst (@bezier_eval R N b i t) <= hix /\ loy <= snd (@bezier_eval R N b i t) <= hiy.
+  Proof. intros b i t lox hix loy hiy Ht. exact (bezier_in_control_box sp b i t lox hix loy hiy Ht). Qed.
+
+  (** ... and a member of a chain of straight pieces lies horizontally within (total length + |distance from the
+      surface|) of its foot on the trench: the buffer total length + max(thickness, -top truncation) suffices
+      (the -top truncation part was missing in the implementation: defect D28, found while stating this theorem) *)
+  Theorem C07_horizontal_reach_straight : forall prefix sx L th a d,
+    (forall L' th', In (L', th') prefix -> 0 <= L') -> 0 <= a <= L ->
+    Rabs (chain_end_x prefix sx + a * cos th - d * sin th - sx) <= (chain_length prefix + L) + Rabs d.
+  Proof. intros prefix sx L th a d H1 H2. exact (reach_sufficient_straight prefix sx L th a d H1 H2). Qed.
 End C07.
 
 Print Assumptions C07_pretest.
 Print Assumptions C07_kd_is_exact.
 Print Assumptions C07_depth_cutoff_straight.
+Print Assumptions C07_trench_in_control_box.
+Print Assumptions C07_horizontal_reach_straight.
